@@ -15,12 +15,22 @@ pub struct FamVariants {
 }
 
 pub fn fam_variants(fam: &Family, enc: Enc) -> FamVariants {
-    FamVariants { v: fam.enc(enc).iter().map(single_deviations).collect() }
+    FamVariants {
+        v: fam.enc(enc).iter().map(single_deviations).collect(),
+    }
 }
 
 /// deviation bound 1: every single deviation on either side (plus the trait pairings);
 /// deviation bound 2: additionally every pair (one deviation on each side)
-pub fn pair_case(fam: &Family, enc: Enc, fv: &FamVariants, a: u32, b: u32, bound: u8, loc: &mut Local) -> Vec<(String, Value)> {
+pub fn pair_case(
+    fam: &Family,
+    enc: Enc,
+    fv: &FamVariants,
+    a: u32,
+    b: u32,
+    bound: u8,
+    loc: &mut Local,
+) -> Vec<(String, Value)> {
     let (pa, pb) = (&fam.enc(enc)[a as usize], &fam.enc(enc)[b as usize]);
     let (va, vb) = (&fv.v[a as usize], &fv.v[b as usize]);
     let mut out = vec![];
@@ -43,7 +53,11 @@ pub fn pair_case(fam: &Family, enc: Enc, fv: &FamVariants, a: u32, b: u32, bound
             };
             if !ok {
                 out.push((
-                    format!("C07 representation-changes-result {} {}", desc.split(' ').next().unwrap_or(""), op_name(op)),
+                    format!(
+                        "C07 representation-changes-result {} {}",
+                        desc.split(' ').next().unwrap_or(""),
+                        op_name(op)
+                    ),
                     json!({"variant": desc}),
                 ));
             }
@@ -62,7 +76,13 @@ pub fn pair_case(fam: &Family, enc: Enc, fv: &FamVariants, a: u32, b: u32, bound
         if bound >= 2 {
             for v in va {
                 for w in vb {
-                    check(&v.mp, &w.mp, Pairing::MM, format!("A:{}|B:{}", v.desc, w.desc), loc);
+                    check(
+                        &v.mp,
+                        &w.mp,
+                        Pairing::MM,
+                        format!("A:{}|B:{}", v.desc, w.desc),
+                        loc,
+                    );
                 }
             }
         }
@@ -70,7 +90,14 @@ pub fn pair_case(fam: &Family, enc: Enc, fv: &FamVariants, a: u32, b: u32, bound
     out
 }
 
-fn replay_variant(fam: &Family, enc: Enc, a: u32, b: u32, desc: &str, op: geo_booleanop::boolean::Operation) -> bool {
+fn replay_variant(
+    fam: &Family,
+    enc: Enc,
+    a: u32,
+    b: u32,
+    desc: &str,
+    op: geo_booleanop::boolean::Operation,
+) -> bool {
     let (pa, pb) = (&fam.enc(enc)[a as usize], &fam.enc(enc)[b as usize]);
     let base = match call(pa, pb, op).res {
         Ok(r) => r,
@@ -98,7 +125,13 @@ fn replay_variant(fam: &Family, enc: Enc, a: u32, b: u32, desc: &str, op: geo_bo
 }
 
 /// float table: region unchanged under every single deviation
-fn table_case(t: &crate::tables::Table, spec: &TableSpec, ia: usize, ib: usize, loc: &mut Local) -> Vec<(String, Value)> {
+fn table_case(
+    t: &crate::tables::Table,
+    spec: &TableSpec,
+    ia: usize,
+    ib: usize,
+    loc: &mut Local,
+) -> Vec<(String, Value)> {
     let (a, b) = (&t.ops[ia], &t.ops[ib]);
     let mut edges = a.edges.clone();
     edges.extend(b.edges.iter().cloned());
@@ -115,11 +148,22 @@ fn table_case(t: &crate::tables::Table, spec: &TableSpec, ia: usize, ib: usize, 
         let mut check = |x: &MP, y: &MP, desc: String, loc: &mut Local| {
             loc.transitions += 1;
             let ok = match call(x, y, op).res {
-                Ok(r) => wit.pts.iter().enumerate().all(|(k, &w)| (polywise(&r, w) >= 1) == wv[k]),
+                Ok(r) => wit
+                    .pts
+                    .iter()
+                    .enumerate()
+                    .all(|(k, &w)| (polywise(&r, w) >= 1) == wv[k]),
                 Err(_) => false,
             };
             if !ok {
-                out.push((format!("C07 representation-changes-region {} {}", desc.split(' ').next().unwrap_or(""), op_name(op)), json!({"variant": desc})));
+                out.push((
+                    format!(
+                        "C07 representation-changes-region {} {}",
+                        desc.split(' ').next().unwrap_or(""),
+                        op_name(op)
+                    ),
+                    json!({"variant": desc}),
+                ));
             }
         };
         for v in &va {
@@ -137,13 +181,30 @@ pub fn replay(case: &Value, verbose: bool) -> Vec<String> {
     if case["kind"] == "table" {
         let spec = TableSpec::from_json(&case["table"]);
         let t = spec.build();
-        return table_case(&t, &spec, case["a"].as_u64().unwrap() as usize, case["b"].as_u64().unwrap() as usize, &mut loc).into_iter().map(|x| x.0).collect();
+        return table_case(
+            &t,
+            &spec,
+            case["a"].as_u64().unwrap() as usize,
+            case["b"].as_u64().unwrap() as usize,
+            &mut loc,
+        )
+        .into_iter()
+        .map(|x| x.0)
+        .collect();
     }
     let fam = family_cached(case["family"].as_str().unwrap());
     let enc = enc_from(case["enc"].as_str().unwrap_or("M"));
-    let (a, b) = (case["a"].as_u64().unwrap() as u32, case["b"].as_u64().unwrap() as u32);
+    let (a, b) = (
+        case["a"].as_u64().unwrap() as u32,
+        case["b"].as_u64().unwrap() as u32,
+    );
     if verbose {
-        println!("A = {}\nB = {}\nvariant = {}", hex(&fam.enc(enc)[a as usize]), hex(&fam.enc(enc)[b as usize]), case["variant"]);
+        println!(
+            "A = {}\nB = {}\nvariant = {}",
+            hex(&fam.enc(enc)[a as usize]),
+            hex(&fam.enc(enc)[b as usize]),
+            case["variant"]
+        );
     }
     // replay exactly the recorded variant (covers deviation bound 2 as well)
     let mut cl = vec![];
@@ -155,7 +216,10 @@ pub fn replay(case: &Value, verbose: bool) -> Vec<String> {
         return cl;
     }
     let fv = fam_variants(&fam, enc);
-    pair_case(&fam, enc, &fv, a, b, 1, &mut loc).into_iter().map(|x| x.0).collect()
+    pair_case(&fam, enc, &fv, a, b, 1, &mut loc)
+        .into_iter()
+        .map(|x| x.0)
+        .collect()
 }
 
 fn sweep(st: &Stats, name: &str, enc: Enc, bound: u8, subset: Option<u32>) {
@@ -228,9 +292,19 @@ pub fn run(tier: &str) -> i32 {
                 loc.nontrivial += 1;
             }
             for (c, extra) in table_case(&t, &spec, ia, ib, &mut loc) {
-                let mut case = json!({"prop": "C07", "kind": "table", "table": spec.json(), "a": ia, "b": ib});
+                let mut case =
+                    json!({"prop": "C07", "kind": "table", "table": spec.json(), "a": ia, "b": ib});
                 case["variant"] = extra["variant"].clone();
-                loc.violation(&c, format!("{}:{ia}:{ib}:{}:{}", spec.name, extra["variant"].as_str().unwrap_or(""), clause_op(&c)), case);
+                loc.violation(
+                    &c,
+                    format!(
+                        "{}:{ia}:{ib}:{}:{}",
+                        spec.name,
+                        extra["variant"].as_str().unwrap_or(""),
+                        clause_op(&c)
+                    ),
+                    case,
+                );
             }
         }
         st.merge(&loc);
